@@ -137,7 +137,7 @@ def cq_defs(ids: Dict[Tuple[str, Optional[str]], int], spec: Dict[str, Any], onl
 def gen(rng: random.Random) -> Dict[str, Any]:
     if rng.random() < 0.2:
         return daggen.gen_option_groups(rng)
-    spec = daggen.gen_single_root(rng, n_rows=rng.randrange(1, 5))
+    spec = daggen.gen_ladder(rng, n_rows=rng.randrange(1, 5)) if rng.random() < 0.12 else daggen.gen_single_root(rng, n_rows=rng.randrange(1, 5))
     root = spec["groups"][0]
     for k, v in root["cols"].items():
         for i in range(len(v)):
